@@ -157,7 +157,10 @@ def _parse_argument_set(
         previous_child = formals_node.children[0]
         if previous_child.type != "{":
             raise ValueError("Function definition formals are missing an opening brace")
+        after_own_line_comment = False
         for child in formals_node.children:
+            if child.type != "comment":
+                after_own_line_comment = False
             if child.type in ("{", "}"):
                 continue
             elif child.type == ",":
@@ -239,6 +242,7 @@ def _parse_argument_set(
                 comment = Comment.from_cst(child)
                 inline_to_prev = (
                     previous_child is not None
+                    and not after_own_line_comment
                     and child.start_point.row == previous_child.end_point.row
                     and argument_set
                 )
@@ -246,6 +250,7 @@ def _parse_argument_set(
                     comment.inline = True
                     argument_set[-1].after.append(comment)
                 else:
+                    after_own_line_comment = True
                     before.append(comment)
                     if pending_comment_indent is None:
                         pending_comment_indent = child.start_point.column
